@@ -137,6 +137,7 @@ pub fn run(p: &Params) -> Run {
             Err(e) => run.notes.push(format!("child failed to run: {}", e)),
         }
     }
+    run.notes.push("every 8th case uses tables and columns whose names differ only in letter case and statements spelling them a third way (exact name resolution: not-found errors; a hash-order fallback would differ between runs)".to_owned());
     run.notes.push(format!("{} cases executed twice in-process and once in each of {} fresh processes (fresh SipHash keys); half of the cases with three unrelated extra tables defined", n, procs));
     run
 }
